@@ -128,8 +128,37 @@ end State
 inductive FaultKind where | failBefore | failAfter
 deriving Repr, DecidableEq, Inhabited
 
+/-- the classes of backend calls a transaction makes (one constructor per decorated interface method) -/
+inductive Cls where
+  | tlogAdd | tlogRemove | plogAdd | plogRemove
+  | regGet | regAdd | regUpdate | regUpdateNoLocks | regRemove
+  | blobAdd | blobRemove | srUpdate | srRemove
+  | l2GetStructs | l2SetStructs | l2Delete | l2Lock | l2DualLock | l2IsLocked | l2Unlock
+deriving Repr, DecidableEq, Inhabited
+
+/-- canonical arguments / results of a call, rendered to text only by the driver -/
+inductive Args where
+  | none
+  | ids (l : List UUID)
+  | keys (l : List UUID)
+  | handles (l : List Handle)
+  | aon (l : List Handle)
+  | num (n : Nat)
+  | deltas (l : List (Nat × Int))
+  | store (n : Nat)
+  | bool (b : Bool)
+deriving Repr, DecidableEq, Inhabited
+
+/-- one traced call -/
+structure Ev where
+  cls : Cls
+  args : Args := .none
+  res : Args := .none
+  err : Bool := false
+deriving Repr, DecidableEq, Inhabited
+
 structure Fault where
-  cls : String
+  cls : Cls
   occ : Nat
   kind : FaultKind
 deriving Repr, DecidableEq, Inhabited
@@ -140,8 +169,8 @@ structure Run where
   tid : Tid
   fault : Option Fault := none
   cs : Step := .unknown                  -- logger.committedState
-  occs : List (String × Nat) := []
-  trace : List String := []              -- newest first
+  occs : List (Cls × Nat) := []
+  trace : List Ev := []                  -- newest first
   nodesKeys : Option (List UUID) := none -- t.nodesKeys (none = nil)
   lockOwner : List Nat := []             -- stores whose item records have isLockOwner set
   fresh : List (UUID × UUID) := []       -- (lid, id) pairs: the id AllocateID will produce for that handle, in order
@@ -172,43 +201,30 @@ def get : M Run := fun r => .ok (r, r)
 def modify (f : Run → Run) : M Unit := fun r => .ok ((), f r)
 def getS : M State := fun r => .ok (r.s, r)
 
-def showIds (ids : List UUID) : String :=
-  "[" ++ ",".intercalate ((ids.mergeSort (· ≤ ·)).map toString) ++ "]"
-
-def wipClass (h : Handle) : String := if h.wip = 0 then "0" else if h.wip = 1 then "1" else "t"
-def b01 (b : Bool) : String := if b then "1" else "0"
-def showHandle (h : Handle) : String :=
-  s!"{h.lid}:{h.idA}:{h.idB}:{b01 h.activeB}:{h.version}:{wipClass h}:{b01 h.deleted}"
-def showHandles (hs : List Handle) : String :=
-  "[" ++ " ".intercalate ((hs.mergeSort (fun a b => a.lid ≤ b.lid)).map showHandle) ++ "]"
-def showKeys (ids : List UUID) : String :=
-  "[" ++ " ".intercalate ((ids.mergeSort (· ≤ ·)).map (fun i => s!"lock:{i}")) ++ "]"
-
-def bumpOcc (occs : List (String × Nat)) (cls : String) : List (String × Nat) × Nat :=
+def bumpOcc (occs : List (Cls × Nat)) (cls : Cls) : List (Cls × Nat) × Nat :=
   match occs.find? (·.1 == cls) with
   | none => ((cls, 1) :: occs, 1)
   | some (_, n) => (occs.map (fun p => if p.1 == cls then (p.1, n + 1) else p), n + 1)
 
 /-- One backend call: trace it, apply its effect unless it fails before, raise the error if it fails. -/
-def call (cls args : String) (eff : State → State) (result : String := "") (natErr : State → Bool := fun _ => false) : M Unit := fun r =>
+def call (cls : Cls) (args : Args) (eff : State → State) (result : Args := .none) (natErr : State → Bool := fun _ => false) : M Unit := fun r =>
   let (occs, n) := bumpOcc r.occs cls
   let hit : Option FaultKind := match r.fault with
     | some f => if f.cls == cls && f.occ == n then some f.kind else none
     | none => none
-  let line (res : String) (err : Bool) :=
-    (cls ++ (if args.isEmpty then "" else " " ++ args) ++ (if res.isEmpty then "" else " -> " ++ res) ++ (if err then " !err" else ""))
+  let line (res : Args) (err : Bool) : Ev := { cls := cls, args := args, res := res, err := err }
   match hit with
   | none =>
-    if natErr r.s then .error { r with occs := occs, trace := line "" true :: r.trace }
+    if natErr r.s then .error { r with occs := occs, trace := line .none true :: r.trace }
     else .ok ((), { r with occs := occs, trace := line result false :: r.trace, s := eff r.s })
-  | some .failBefore => .error { r with occs := occs, trace := line "" true :: r.trace }
+  | some .failBefore => .error { r with occs := occs, trace := line .none true :: r.trace }
   | some .failAfter => .error { r with occs := occs, trace := line result true :: r.trace, s := eff r.s }
 
 /-- `logger.log`: set committedState FIRST, then append to the log file. -/
 def logStep (st : Step) : M Unit := do
   modify (fun r => { r with cs := st })
   let r ← get
-  call "tlog.Add" (toString st.ord) (fun s => { s with tlog := fun k => if k = r.tid then true else s.tlog k })
+  call .tlogAdd (.num st.ord) (fun s => { s with tlog := fun k => if k = r.tid then true else s.tlog k })
 
 /-- run `m`, turning its failure into `false` but keeping the state changes (used where Go ignores or merely logs an error) -/
 def attempt (m : M Unit) : M Bool := fun r =>
@@ -219,7 +235,7 @@ def attempt (m : M Unit) : M Bool := fun r =>
 def regGet (ids : List UUID) : M (List Handle) := do
   let s ← getS
   let hs := ids.filterMap s.reg
-  call "reg.Get" (showIds ids) id (showHandles hs)
+  call .regGet (.ids (ids)) id (.handles (hs))
   pure hs
 
 /-! ## Item lock records (`itemActionTracker.lock / unlock / checkTrackedItems`) per store -/
@@ -229,29 +245,29 @@ def lockItems (w : WS) : M Unit := do
     if st.tracked && st.items > 0 then
       let r ← get
       -- first read
-      call "l2.GetStructs" (toString st.items) id
+      call .l2GetStructs (.num st.items) id
       match r.s.itemLock st.store with
       | some owner =>
         if owner = r.tid then pure ()       -- our own records: nothing to set or verify
         else fail                            -- "lock(item) call detected conflict"
       | none =>
-        call "l2.SetStructs" (toString st.items)
+        call .l2SetStructs (.num st.items)
           (fun s => { s with itemLock := fun k => if k = st.store then some r.tid else s.itemLock k })
-        call "l2.GetStructs" (toString st.items) id
+        call .l2GetStructs (.num st.items) id
         modify (fun r => { r with lockOwner := st.store :: r.lockOwner })
 
 def unlockItems (w : WS) : M Unit := do
   for st in w.stores do
     let r ← get
     if st.tracked && st.items > 0 && r.lockOwner.contains st.store then
-      call "l2.Delete" (toString st.items)
+      call .l2Delete (.num st.items)
         (fun s => { s with itemLock := fun k => if k = st.store then none else s.itemLock k })
 
 def checkItems (w : WS) : M Unit := do
   for st in w.stores do
     if st.tracked && st.items > 0 then
       let r ← get
-      call "l2.GetStructs" (toString st.items) id
+      call .l2GetStructs (.num st.items) id
       match r.s.itemLock st.store with
       | some owner => if owner = r.tid then pure () else fail
       | none => pure ()          -- "not found" is not treated as an error
@@ -263,7 +279,7 @@ def lockFree (s : State) (tid : Tid) (ids : List UUID) : Bool :=
 
 def unlockKeys (ids : List UUID) : M Unit := do
   let r ← get
-  call "l2.Unlock" (showKeys ids)
+  call .l2Unlock (.keys (ids))
     (fun s => { s with nodeLock := fun k => if ids.contains k && s.nodeLock k == some r.tid then none else s.nodeLock k })
 
 /-- `unlockNodesKeys`: no call when `nodesKeys` is nil -/
@@ -293,8 +309,8 @@ def commitNewRoots (w : WS) : M Bool := do
   if ids.isEmpty then return true
   let hs ← regGet ids
   if !hs.isEmpty then return false
-  call "blob.Add" (showIds ids) (fun s => s.addBlobs ids)
-  call "reg.Add" (showHandles (ids.map Handle.new)) (fun s => s.setRegs (ids.map Handle.new))
+  call .blobAdd (.ids (ids)) (fun s => s.addBlobs ids)
+  call .regAdd (.handles ((ids.map Handle.new))) (fun s => s.setRegs (ids.map Handle.new))
   return true
 
 def fetchedIntact (w : WS) : M Bool := do
@@ -346,8 +362,8 @@ def commitUpdated (w : WS) : M Bool := do
   | none => return false
   | some (res, fr') =>
     modify (fun r => { r with fresh := fr' })
-    call "reg.UpdateNoLocks" (showHandles res) (fun s => s.setRegs res)
-    call "blob.Add" (showIds (res.map (·.inactive))) (fun s => s.addBlobs (res.map (·.inactive)))
+    call .regUpdateNoLocks (.handles (res)) (fun s => s.setRegs res)
+    call .blobAdd (.ids (res.map (·.inactive))) (fun s => s.addBlobs (res.map (·.inactive)))
     modify (fun r => { r with reserved := res })
     return true
 
@@ -362,7 +378,7 @@ def commitRemoved (w : WS) : M Bool := do
     | none => false)
   if !ok || hs.length != rm.length then return false
   let marked := hs.map (fun h => { h with deleted := true, wip := r.s.now })
-  call "reg.UpdateNoLocks" (showHandles marked) (fun s => s.setRegs marked)
+  call .regUpdateNoLocks (.handles (marked)) (fun s => s.setRegs marked)
   modify (fun r => { r with removedH := marked })
   return true
 
@@ -371,24 +387,21 @@ def commitAdded (w : WS) : M Unit := do
   let ids := w.addedIds
   if ids.isEmpty then return ()
   let hs := ids.map (fun i => { Handle.new i with version := 1 })
-  call "reg.Add" (showHandles hs) (fun s => s.setRegs hs)
-  call "blob.Add" (showIds ids) (fun s => s.addBlobs ids)
-
-def showDeltas (ds : List (Nat × Int)) : String :=
-  "[" ++ " ".intercalate ((ds.mergeSort (fun a b => a.1 ≤ b.1)).map (fun (s, d) => s!"st{s}:{if d ≥ 0 then "+" else ""}{d}")) ++ "]"
+  call .regAdd (.handles (hs)) (fun s => s.setRegs hs)
+  call .blobAdd (.ids (ids)) (fun s => s.addBlobs ids)
 
 /-- `commitStores`: one StoreRepository.Update with the stores whose delta is non-zero -/
 def commitStores (w : WS) : M Unit := do
   let ds := (w.stores.filter (·.delta != 0)).map (fun st => (st.store, st.delta))
   if ds.isEmpty then return ()
-  call "sr.Update" (showDeltas ds) (fun s => ds.foldl (fun s (st, d) => s.addCnt st d) s)
+  call .srUpdate (.deltas ds) (fun s => ds.foldl (fun s (st, d) => s.addCnt st d) s)
 
 /-! ## Live rollback (`Transaction.rollback`) -/
 
 /-- the L2 node-cache entries of the given blob ids are deleted one call each (no durable effect) -/
 def dropNodeCache (ids : List UUID) : M Unit := do
   for _ in ids do
-    let _ ← attempt (call "l2.Delete" "1" id)
+    let _ ← attempt (call .l2Delete (.num 1) id)
 
 def rollbackUpdated (w : WS) : M Unit := do
   let ids := w.updated.map (·.1)
@@ -396,13 +409,13 @@ def rollbackUpdated (w : WS) : M Unit := do
   let hs ← regGet ids
   let toDel := (hs.filter (·.inactive != 0)).map (·.inactive)
   let cleared := hs.map (fun h => if h.inactive = 0 then { h with wip := 0 } else h.clearInactive)
-  let _ ← attempt (call "blob.Remove" (showIds toDel) (fun s => s.delBlobs toDel))
+  let _ ← attempt (call .blobRemove (.ids (toDel)) (fun s => s.delBlobs toDel))
   let r ← get
   -- nodesAreLocked = nodesKeysExist(): UpdateNoLocks, otherwise Update (per-handle locks)
   if (keysOrEmpty r).isEmpty then
-    let _ ← attempt (call "reg.Update" (showHandles cleared) (fun s => s.setRegs cleared))
+    let _ ← attempt (call .regUpdate (.handles (cleared)) (fun s => s.setRegs cleared))
   else
-    let _ ← attempt (call "reg.UpdateNoLocks" (showHandles cleared) (fun s => s.setRegs cleared))
+    let _ ← attempt (call .regUpdateNoLocks (.handles (cleared)) (fun s => s.setRegs cleared))
   dropNodeCache toDel
 
 def rollbackRemoved (w : WS) : M Unit := do
@@ -415,21 +428,21 @@ def rollbackRemoved (w : WS) : M Unit := do
   let undo := (hs.filter (fun h => h.deleted || h.wip > 0)).map (fun h => { h with deleted := false, wip := 0 })
   let r ← get
   if (keysOrEmpty r).isEmpty then
-    let _ ← attempt (call "reg.Update" (showHandles undo) (fun s => s.setRegs undo))
+    let _ ← attempt (call .regUpdate (.handles (undo)) (fun s => s.setRegs undo))
   else
-    let _ ← attempt (call "reg.UpdateNoLocks" (showHandles undo) (fun s => s.setRegs undo))
+    let _ ← attempt (call .regUpdateNoLocks (.handles (undo)) (fun s => s.setRegs undo))
 
 def rollbackAdded (w : WS) : M Unit := do
   let ids := w.addedIds
   if ids.isEmpty then return ()
-  let _ ← attempt (call "blob.Remove" (showIds ids) (fun s => s.delBlobs ids))
-  let _ ← attempt (call "reg.Remove" (showIds ids) (fun s => s.delRegs ids))
+  let _ ← attempt (call .blobRemove (.ids (ids)) (fun s => s.delBlobs ids))
+  let _ ← attempt (call .regRemove (.ids (ids)) (fun s => s.delRegs ids))
   dropNodeCache ids
 
 def rollbackNewRoots (w : WS) : M Unit := do
   let ids := w.rootIds
   if ids.isEmpty then return ()
-  let _ ← attempt (call "blob.Remove" (showIds ids) (fun s => s.delBlobs ids))
+  let _ ← attempt (call .blobRemove (.ids (ids)) (fun s => s.delBlobs ids))
   dropNodeCache ids
   -- (committedState > commitNewRootNodes is already known here)
   let ok ← attempt (do let _ ← regGet ids; pure ())
@@ -437,13 +450,13 @@ def rollbackNewRoots (w : WS) : M Unit := do
   let s ← getS
   let present := (ids.filterMap s.reg).map (·.lid)
   if !present.isEmpty then
-    let _ ← attempt (call "reg.Remove" (showIds present) (fun s => s.delRegs present))
+    let _ ← attempt (call .regRemove (.ids (present)) (fun s => s.delRegs present))
 
 def rollbackStores (w : WS) : M Unit := do
   -- getRollbackStoresInfo: every non-created store, with the reverse delta (also when it is 0)
   let ds := (w.stores.filter (!·.created)).map (fun st => (st.store, -st.delta))
   if ds.isEmpty then return ()
-  let _ ← attempt (call "sr.Update" (showDeltas ds) (fun s => ds.foldl (fun s (st, d) => s.addCnt st d) s))
+  let _ ← attempt (call .srUpdate (.deltas ds) (fun s => ds.foldl (fun s (st, d) => s.addCnt st d) s))
 
 /-- `Transaction.rollback(ctx, rollbackTrackedItemsValues)`. Errors are collected, never short-circuit. -/
 def rollback (w : WS) (values : Bool) : M Unit := do
@@ -451,7 +464,7 @@ def rollback (w : WS) (values : Bool) : M Unit := do
   let c := r.cs.ord
   if c > Step.finalizeCommit.ord then fail
   if c ≥ Step.beforeFinalize.ord then
-    let _ ← attempt (call "plog.Remove" "" (fun s => { s with plog := fun k => if k = r.tid then false else s.plog k }))
+    let _ ← attempt (call .plogRemove .none (fun s => { s with plog := fun k => if k = r.tid then false else s.plog k }))
   if c > Step.commitStoreInfo.ord then rollbackStores w
   if c > Step.commitAddedNodes.ord then rollbackAdded w
   if c > Step.commitRemovedNodes.ord then rollbackRemoved w
@@ -461,16 +474,16 @@ def rollback (w : WS) (values : Bool) : M Unit := do
   if values && c ≥ Step.commitTrackedItemsValues.ord then
     for st in w.stores do
       if !st.values.isEmpty then
-        let _ ← attempt (call "blob.Remove" (showIds st.values) (fun s => s.delBlobs st.values))
+        let _ ← attempt (call .blobRemove (.ids (st.values)) (fun s => s.delBlobs st.values))
   if c ≥ Step.lockTrackedItems.ord then
     let _ ← attempt (unlockItems w)
   if c ≥ Step.createStore.ord then
     for st in w.stores do
       if st.created then
-        let _ ← attempt (call "sr.Remove" s!"[st{st.store}]"
+        let _ ← attempt (call .srRemove (.store st.store)
           (fun s => { s with storeExists := fun k => if k = st.store then false else s.storeExists k,
                              cnt := fun k => if k = st.store then 0 else s.cnt k }))
-  let _ ← attempt (call "tlog.Remove" "" (fun s => { s with tlog := fun k => if k = r.tid then false else s.tlog k }) "" (fun s => !s.tlog r.tid))
+  let _ ← attempt (call .tlogRemove .none (fun s => { s with tlog := fun k => if k = r.tid then false else s.tlog k }) .none (fun s => !s.tlog r.tid))
   modify (fun r => { r with cs := .unknown })
 
 /-! ## phase 1 -/
@@ -480,7 +493,7 @@ def phase1Body (w : WS) : M Bool := do
   logStep .commitTrackedItemsValues
   for st in w.stores do
     if !st.values.isEmpty then
-      call "blob.Add" (showIds st.values) (fun s => s.addBlobs st.values)
+      call .blobAdd (.ids (st.values)) (fun s => s.addBlobs st.values)
   logStep .commitNewRootNodes
   let ok ← commitNewRoots w
   if !ok then return false
@@ -501,15 +514,15 @@ def lockNodes : M Bool := do
   let r ← get
   let ks := keysOrEmpty r
   let free := lockFree r.s r.tid ks
-  let ok ← attempt (call "l2.Lock" (showKeys ks)
+  let ok ← attempt (call .l2Lock (.keys (ks))
     (fun s => if free then { s with nodeLock := fun k => if ks.contains k then some r.tid else s.nodeLock k } else s)
-    (if free then "true" else "false"))
+    (.bool free))
   if !ok then
     -- `if err != nil { t.l2Cache.Unlock(ctx, t.nodesKeys); return err }`
     let _ ← attempt (unlockKeys ks)
     fail
   if !free then return false
-  call "l2.IsLocked" (showKeys ks) id "true"
+  call .l2IsLocked (.keys (ks)) id (.bool true)
   return true
 
 /-- `phase1Commit`, one round of its loop. A round that is not successful ends in outcome `conflict` after the
@@ -538,15 +551,15 @@ def phase1 (w : WS) (maxRetry : Nat) : M Unit := do
   logStep .beforeFinalize
   let r ← get
   if !r.reserved.isEmpty || !r.removedH.isEmpty then
-    call "plog.Add" "" (fun s => { s with plog := fun k => if k = r.tid then true else s.plog k })
+    call .plogAdd .none (fun s => { s with plog := fun k => if k = r.tid then true else s.plog k })
   checkItems w
   let r ← get
   if !(keysOrEmpty r).isEmpty then
     -- nodesKeysNilOrLocked; when it does not confirm, one DualLock attempt decides
-    let ok ← attempt (call "l2.IsLocked" (showKeys (keysOrEmpty r)) id "true")
+    let ok ← attempt (call .l2IsLocked (.keys ((keysOrEmpty r))) id (.bool true))
     if !ok then
       let ks := keysOrEmpty r
-      call "l2.DualLock" (showKeys ks) (fun s => { s with nodeLock := fun k => if ks.contains k then some r.tid else s.nodeLock k }) "true"
+      call .l2DualLock (.keys (ks)) (fun s => { s with nodeLock := fun k => if ks.contains k then some r.tid else s.nodeLock k }) (.bool true)
 
 /-- `activateInactiveNodes` / `touchNodes` -/
 def activate (h : Handle) : Handle := { h.flip with version := h.version + 1, wip := 1 }
@@ -559,23 +572,23 @@ def cleanup (w : WS) : M Unit := do
   let flipped := r.reserved.map activate
   let unused := flipped.map (·.inactive) ++ r.removedH.map (·.active)
   if !unused.isEmpty then
-    let _ ← attempt (call "blob.Remove" (showIds unused) (fun s => s.delBlobs unused))
+    let _ ← attempt (call .blobRemove (.ids (unused)) (fun s => s.delBlobs unused))
   let dead := r.removedH.map (·.lid)
-  let _ ← attempt (call "reg.Remove" (showIds dead) (fun s => s.delRegs dead))
+  let _ ← attempt (call .regRemove (.ids (dead)) (fun s => s.delRegs dead))
   let ok ← attempt (logStep .deleteTrackedItemsValues)
   if !ok then return ()
   for st in w.stores do
     if !st.obsoleteValues.isEmpty then
-      let _ ← attempt (call "blob.Remove" (showIds st.obsoleteValues) (fun s => s.delBlobs st.obsoleteValues))
-  let _ ← attempt (call "tlog.Remove" "" (fun s => { s with tlog := fun k => if k = r.tid then false else s.tlog k }) "" (fun s => !s.tlog r.tid))
+      let _ ← attempt (call .blobRemove (.ids (st.obsoleteValues)) (fun s => s.delBlobs st.obsoleteValues))
+  let _ ← attempt (call .tlogRemove .none (fun s => { s with tlog := fun k => if k = r.tid then false else s.tlog k }) .none (fun s => !s.tlog r.tid))
 
 /-- `priorityRollback` of our own transaction: restore the logged pre-flip images, remove the priority log -/
 def priorityRollbackSelf : M Unit := do
   let r ← get
   if r.s.plog r.tid then
     let imgs := r.reserved ++ r.removedH
-    let _ ← attempt (call "reg.UpdateNoLocks" (showHandles imgs) (fun s => s.setRegs imgs))
-    let _ ← attempt (call "plog.Remove" "" (fun s => { s with plog := fun k => if k = r.tid then false else s.plog k }))
+    let _ ← attempt (call .regUpdateNoLocks (.handles (imgs)) (fun s => s.setRegs imgs))
+    let _ ← attempt (call .plogRemove .none (fun s => { s with plog := fun k => if k = r.tid then false else s.plog k }))
 
 /-- `phase2Commit`; on failure `Phase2Commit` runs the priority rollback and the live rollback -/
 def phase2 (w : WS) : M Unit := do
@@ -586,8 +599,8 @@ def phase2 (w : WS) : M Unit := do
     fail
   let final := r.reserved.map activate ++ r.removedH.map touch
   if !final.isEmpty then
-    call "reg.UpdateNoLocks" ("aon " ++ showHandles final) (fun s => s.setRegs final)
-    let _ ← attempt (call "plog.Remove" "" (fun s => { s with plog := fun k => if k = r.tid then false else s.plog k }))
+    call .regUpdateNoLocks (.aon final) (fun s => s.setRegs final)
+    let _ ← attempt (call .plogRemove .none (fun s => { s with plog := fun k => if k = r.tid then false else s.plog k }))
   unlockNodesKeys
   let _ ← attempt (unlockItems w)
   cleanup w
@@ -612,7 +625,7 @@ def commit (w : WS) (maxRetry : Nat) : Run → Outcome × Run := fun r =>
             priorityRollbackSelf
             unlockNodesKeys
           else
-            let _ ← attempt (call "plog.Remove" "" (fun s => { s with plog := fun k => if k = r.tid then false else s.plog k }))
+            let _ ← attempt (call .plogRemove .none (fun s => { s with plog := fun k => if k = r.tid then false else s.plog k }))
           rollback w true : M Unit) r2 with
         | .ok (_, r') => r'
         | .error r' => r'
